@@ -220,7 +220,8 @@ def exported_reaching(repo, rel_files, sink_pattern):
             for m in re.finditer(r"(pub\s+)?(?:const\s+)?fn\s+([A-Za-z_0-9]+)\s*(?:<[^>{;]*>)?\s*\(", body):
                 if is_trait or m.group(1):
                     exported.add(m.group(2))
-    direct = {n for n, b in fns.items() if re.search(sink_pattern, b)}
+    pats = sink_pattern if isinstance(sink_pattern, (list, tuple)) else [sink_pattern]
+    direct = {n for n, b in fns.items() if all(re.search(pt, b) for pt in pats)}
     reach = set(direct)
     changed = True
     while changed:
@@ -268,8 +269,9 @@ def c14_fund_movers(repo):
 
 
 def c12_balance_writers(repo):
-    return _sink_frame(repo, "C12.balance_writers", ["contracts/interchain-token/src/contract.rs"], r"DataKey::Balance\b[^;]*;|DataKey::Balance\(",
-                       ["transfer", "transfer_from", "burn", "burn_from", "mint", "mint_from", "balance"], "an access to a balance entry")
+    # a function that names a balance key and performs a storage write (reads are not sinks)
+    return _sink_frame(repo, "C12.balance_writers", ["contracts/interchain-token/src/contract.rs"], [r"DataKey::Balance\(", r"\.(set|update|remove)\s*\("],
+                       ["transfer", "transfer_from", "burn", "burn_from", "mint", "mint_from"], "a write to a balance entry")
 
 
 def c12_allowance_writers(repo):
